@@ -9,7 +9,8 @@ EXTENDS Mirror, MirrorWorld, Json
 CONSTANTS MaxSteps,        \* bound on Len(hist)
           AllowCrash,      \* BOOLEAN: crash/restart actions enabled
           EmitAll,         \* BOOLEAN: print every maximal behaviour (emit configs only)
-          AvoidPanics      \* BOOLEAN: do not take steps that panic the process (deep exploration past known findings)
+          AvoidPanics,     \* BOOLEAN: do not take steps that panic the process (deep exploration past known findings)
+          Guide            \* <<>> or a sequence of [op, args, crashAt]: follow exactly this behaviour (replay of a stored case)
 
 -----------------------------------------------------------------------------
 Up == ks # DownKS /\ pan = ""
@@ -39,6 +40,8 @@ Proj(k, s) ==
 Apply(x, op, args, crashAt) ==
   /\ crashAt <= Len(x.wlog)
   /\ (AvoidPanics => x.pan = "")
+  /\ (Guide # <<>> => /\ Len(hist) <= Len(Guide)
+                      /\ Guide[Len(hist)].op = op /\ Guide[Len(hist)].args = args /\ Guide[Len(hist)].crashAt = crashAt)
   /\ IF crashAt > 0
        THEN /\ ks' = DownKS
             /\ st' = x.wlog[crashAt]
@@ -152,12 +155,20 @@ C05_Inert == [][\A i \in 1..1 :
 C06_Recount ==
   Up => \A slot \in {"V", "N"} :
           LET v == GetView(ks, slot) IN
-          /\ TotalAsCoded(v.vs, v.pv) = TotalRecount(v.vs, v.pv)
+          /\ TotalAsCoded(v.vs, v.pv) = TotalRecount(v.vs, v.pv) /\ TotalAsCoded(v.vs, v.pv) <= TotalPow(v.vs)
           /\ TotalAsCoded(v.vs, v.pc) = TotalRecount(v.vs, v.pc)
 
 \* C07: the set a view uses is the chain's
 C07_ViewVS == Up => /\ ks.V.vs = ChainVS(st, ks.V.h)
                     /\ (ks.C.h >= InitH => ks.C.vs = ChainVS(st, ks.C.h))
+
+\* C11 (design form): what the kernel offers is strictly newer than what was sent, per consumer
+C11_SMFresh == Up => LET o == SMOutput(ks) IN
+                 (o # NoOut /\ o.vrv # NoVRV) => (o.vrv.ver > ks.smm.lastSent /\ o.vrv.h = ks.smm.reH /\ o.vrv.r = ks.smm.reR)
+C11_GossipFresh == Up => LET o == GossipOutput(ks) IN
+                 o # NoOut => /\ (o.C => (ks.C.h > ks.gvm.sentC[1] \/ ks.C.r > ks.gvm.sentC[2] \/ ks.C.ver > ks.gvm.sentC[3] \/ ks.C.h # ks.gvm.sentC[1]))
+                              /\ (o.V => HRV(ks.V) # ks.gvm.sentV)
+                              /\ (o.nilVoted => ks.gvm.nilVoted.h > 0)
 
 \* C09 (mirror part): nothing in the universe panics the kernel
 C09_NoPanic == pan = ""
